@@ -9,9 +9,16 @@ package server
 
 import (
 	"container/heap"
+	"context"
+	"log/slog"
+	"net"
 	"time"
 
+	"github.com/scionproto/scion/pkg/daemon"
+
 	"example.com/scion-time/net/ntp"
+	"example.com/scion-time/net/ntske"
+	"example.com/scion-time/net/scion"
 )
 
 const (
@@ -114,4 +121,14 @@ func VerifReset(keep func(clientID string) bool) {
 	}
 	tssQ = q
 	heap.Init(&tssQ)
+}
+
+// VerifRunSCIONServer runs one SCION listener loop on conn with a DRKey fetcher
+// over the daemon connector supplied by the harness (StartSCIONServer creates
+// its connectors from a daemon address). It registers a fresh set of server
+// metrics on prometheus.DefaultRegisterer and does not return.
+func VerifRunSCIONServer(ctx context.Context, log *slog.Logger, conn *net.UDPConn,
+	localHostPort int, dscp uint8, dc daemon.Connector, provider *ntske.Provider) {
+	runSCIONServer(ctx, log, newSCIONServerMetrics(), conn, "", localHostPort, dscp,
+		scion.NewFetcher(dc), provider)
 }
